@@ -148,7 +148,10 @@ func BytesToFloat64(b []byte) float64 {
 func Float64ToOrderedBytes(f float64) []byte {
 	bs := make([]byte, 8)
 	bits := math.Float64bits(f)
-	if f >= 0 {
+	// Branch on the sign bit, not on the value: -0.0 has the sign bit set but
+	// compares >= 0, and NaN has it clear but compares false. OrderedBytesToFloat64
+	// inverts by the top bit, so both sides must agree.
+	if bits&0x8000000000000000 == 0 {
 		bits ^= 0x8000000000000000
 	} else {
 		bits ^= 0xFFFFFFFFFFFFFFFF
